@@ -502,7 +502,7 @@ func newSrcMode(o *opts) *srcMode {
 	if o.tier == "thorough" {
 		m.allOpt = true
 		m.nNest *= 64
-		m.nRand = 40000
+		m.nRand = 20000
 	}
 	if o.n > 0 {
 		m.nRand = o.n
